@@ -83,6 +83,7 @@ TIMEOUT_IS_FAIL = False   # an overloaded machine must not look like a defect
 CASE_TIMEOUT_S = 30
 
 REL, ABS = 1e-9, 1e-12
+STRICT_ABS = 1e-30     # localisation only: 60-digit values, rounding residue ~1e-55
 KINK_EPS = 1e-3
 BIG = 1e150
 REFUSALS = (ValueError, RuntimeError, NotImplementedError)
@@ -302,7 +303,7 @@ def _ref_eval(e, env):
 
 def _reference(e, var, pt, hp):
     """("val", value, derivative) or ("skip", reason)."""
-    TRACE.reset()
+    TRACE.reset(hp)
     try:
         r = _ref_eval(e, _dual_env(pt, var, hp))
     except DomainSkip as s:
@@ -313,6 +314,8 @@ def _reference(e, var, pt, hp):
         return ("skip", "reference-skip")
     except (OverflowError, ZeroDivisionError, ValueError, ArithmeticError):
         return ("skip", "reference-undefined")
+    finally:
+        TRACE.hp = False
     if r[0] == "err":
         return ("skip", "reference-undefined")
     v, d = split(r[1])
@@ -373,7 +376,7 @@ def _judge_point(e, dexpr, var, pt, strict=False):
                 f"evaluating the derivative raised {type(exc).__name__}: {exc}; "
                 f"the input is differentiable there, dual-number derivative "
                 f"{describe(want)}")
-    if _close(got_hp[1], ref_hp[2], ABS if not strict else 0):
+    if _close(got_hp[1], ref_hp[2], ABS if not strict else STRICT_ABS):
         return ("ok-adjudicated", "")
     shown = got[1] if got[0] == "val" else got_hp[1]
     return ("mismatch", f"derivative evaluates to {describe(shown)}, dual-number "
@@ -391,9 +394,11 @@ def _differentiate(e, var_arg, allow, api):
     return differentiate(e, var_arg, allowed_nonsmoothness=allow)
 
 
-def _localise(e, var, allow, pt, depth=0):
-    """Tag of a minimal sub-expression whose own derivative is already wrong
-    at *pt* (descends through differentiated positions only)."""
+def _localise(e, var, allow, pt, verdict0, depth=0):
+    """Tag of a minimal sub-expression whose own derivative already fails in
+    the same way (wrong value / cannot be evaluated) at *pt*; descends through
+    differentiated positions only."""
+    cls0 = verdict0.split(":")[0]
     if depth < 40:
         for c in _diff_children(e):
             if not isinstance(c, p.Expression) or not _contains(c, var):
@@ -405,8 +410,8 @@ def _localise(e, var, allow, pt, depth=0):
                 raise
             except Exception:
                 continue
-            if verdict == "mismatch" or verdict.startswith("eval-error"):
-                return _localise(c, var, allow, pt, depth + 1)
+            if verdict.split(":")[0] == cls0:
+                return _localise(c, var, allow, pt, verdict0, depth + 1)
     return _tag(e)
 
 
@@ -524,7 +529,7 @@ def check(spec):
             n_ok += 1
             res.label("float-noise-adjudicated")
         else:
-            where = _localise(e, var, eff, pt)
+            where = _localise(e, var, eff, pt, verdict)
             kind = ("derivative-mismatch:" if verdict == "mismatch"
                     else "derivative-" + verdict + ":") + where
             res.fail(kind, f"d/d{var} of {repr(e)[:300]} = {repr(dexpr)[:300]} at "
@@ -576,15 +581,17 @@ def _has_log_of_int_constant(spec):
     return False
 
 
-def _has_power_with_wrapped_constant_exponent(spec):
-    """A Power whose exponent contains no variable but a CommonSubexpression
-    or an If (whose derivative is the truthy node CSE(0) / If(c, 0, 0))."""
+def _has_power_with_wrapped_constant_operand(spec):
+    """A Power with a variable-free base or exponent that contains a
+    CommonSubexpression or an If (whose derivative is the truthy node
+    CSE(0) / If(c, 0, 0))."""
     for s in subspecs(spec.get("expr")):
         if s[0] == "Power" and len(s) == 3:
-            inner = subspecs(s[2])
-            if any(t[0] in ("CommonSubexpression", "If") for t in inner) and not any(
-                    t[0] in ("Var", "Subscript") for t in inner):
-                return True
+            for operand in s[1:]:
+                inner = subspecs(operand)
+                if any(t[0] in ("CommonSubexpression", "If") for t in inner) \
+                        and not any(t[0] in ("Var", "Subscript") for t in inner):
+                    return True
     return False
 
 
@@ -594,7 +601,7 @@ KNOWN = {
     # emits log(base)
     "F-C10-truthy-zero": lambda sub, spec, fail: (
         fail.kind.startswith("derivative-eval-error:")
-        and _has_power_with_wrapped_constant_exponent(spec)),
+        and _has_power_with_wrapped_constant_operand(spec)),
     # copysign(u, v) with u depending on the variable is differentiated to 0
     "F24": lambda sub, spec, fail: (
         fail.kind == "derivative-mismatch:call:copysign"
@@ -772,9 +779,14 @@ class _G:
             return ["Power", base, ex]
         if k == "Func":
             nm = self.pick(SMOOTH)
-            if nm == "log" and self.int(0, 9) < 7:
-                return MATH(nm, self.positive(depth - 1))
-            return MATH(nm, self.gen(depth - 1))
+            arg = (self.positive(depth - 1) if nm == "log" and self.int(0, 9) < 7
+                   else self.gen(depth - 1))
+            if nm == "log" and arg[0] == "Const" and arg[1] == "int" \
+                    and self.int(0, 9) < 8:
+                # log(<int constant>) crashes the differentiator (known finding):
+                # keep most constant arguments floats so the tree is still checked
+                arg = C(float(arg[2]) if arg[2] > 0 else 1.5)
+            return MATH(nm, arg)
         if k == "fabs":
             return MATH("fabs", self.gen(depth - 1))
         if k == "sign":
